@@ -173,8 +173,12 @@ pub fn f1_prog_blocks(rules: &[&Template], line: &str, split: bool) -> Prog {
 }
 
 pub fn symbols_match(obs: &Obs, r: &RefOk) -> bool {
-    let want: Vec<(String, String)> = r.symbols.iter().map(|(n, z)| (n.clone(), format!("0x{:x}", z))).collect();
-    obs.symbols == want
+    // the listing order of the symbol table is not part of any property that uses this: compare as sets
+    let mut want: Vec<(String, String)> = r.symbols.iter().map(|(n, z)| (n.clone(), format!("0x{:x}", z))).collect();
+    let mut got = obs.symbols.clone();
+    want.sort();
+    got.sort();
+    got == want
 }
 
 /// compare a real observation with the reference verdict; returns Some(kind) on disagreement
@@ -216,6 +220,10 @@ pub fn ref_summary(r: &RefOut) -> serde_json::Value {
 }
 
 pub fn judge_prog(prog: &Prog, family: &str, opts: &Opts, l: &mut Local) {
+    judge_prog_for(ID, prog, family, opts, l)
+}
+
+pub fn judge_prog_for(id: &'static str, prog: &Prog, family: &str, opts: &Opts, l: &mut Local) {
     let src = prog.render();
     let r = assemble(prog);
     l.eval();
@@ -241,7 +249,7 @@ pub fn judge_prog(prog: &Prog, family: &str, opts: &Opts, l: &mut Local) {
     l.traces_validated += 1;
     if let Some(kind) = disagreement(&obs, &r) {
         l.violation(Violation {
-            property: ID,
+            property: id,
             key: format!("{}:{}", family, kind),
             what: format!("{}: {}", kind, src.replace('\n', " / ")),
             case: json!({"family": family, "program": src, "opts": opts.to_json(), "expected": ref_summary(&r), "observed": obs.summary()}),
